@@ -116,6 +116,8 @@ pub struct CallRec {
     /// spectators: frames_behind_host() before the call's own poll (after an explicit poll)
     pub behind: i32,
     pub running: bool,
+    /// current_frame() before the call
+    pub cur_before: i32,
 }
 
 #[derive(Clone, Debug, Default, serde::Serialize)]
@@ -168,6 +170,8 @@ pub struct NodeTrace {
     pub conn: Vec<(bool, i32)>,
     /// connection status when the first Disconnected event was drained
     pub conn_at_disc: Vec<(bool, i32)>,
+    /// buffer sizes at the end of the run (same layout as max_sizes)
+    pub final_sizes: Vec<usize>,
     /// largest peak of live heap bytes above the level at call entry, over all API calls
     pub peak_alloc: usize,
 }
@@ -690,6 +694,7 @@ fn record_sizes<C: HCfg>(n: &mut Node<C>, track_series: bool) {
         v.push(e.event_queue as u32);
         v.push(e.sync_random_requests as u32);
     }
+    n.tr.final_sizes = v.iter().map(|x| *x as usize).collect();
     if n.tr.max_sizes.len() < v.len() {
         n.tr.max_sizes.resize(v.len(), 0);
     }
@@ -916,6 +921,7 @@ fn new_node<C: HCfg>(sess: Sess<C>, addr: Addr, is_spec: bool, window: usize, sc
             size_series: Vec::new(),
             conn: Vec::new(),
             conn_at_disc: Vec::new(),
+            final_sizes: Vec::new(),
             peak_alloc: 0,
         },
         dead: false,
@@ -955,6 +961,7 @@ fn step_node<C: HCfg>(
         ahead: 0,
         behind: 0,
         running: false,
+        cur_before: 0,
     };
     if n.dead || n.tr.crashed.is_some() {
         return;
@@ -1088,6 +1095,7 @@ fn step_node<C: HCfg>(
     match &mut n.sess {
         Sess::P(s) => {
             let f = s.current_frame();
+            rec.cur_before = f;
             let handles = scn.peers[ni].locals.clone();
             let alloc_base = crate::alloc::begin(usize::MAX);
             let r = catch_unwind(AssertUnwindSafe(|| {
